@@ -15,9 +15,15 @@ P_FollowerFollowsLeader(o) == \A s \in Snaps(o) : \A l \in DOMAIN s.dcp :
     s.dcp[l].F \in {"selecting", "selected"} => s.dcp[l].L = "selected"
 \* when the specification says the two sides must have converged (nothing in flight, the network let a connection
 \* attempt of the current generation live), they are CONNECTED on one shared link
-P_Converged(o) == o.convergenceDue => (o.final.L.mgr = "CONNECTED" /\ o.final.F.mgr = "CONNECTED" /\ o.final.L.sel = o.final.F.sel /\ o.final.L.sel > 0)
+\* (judged on the state at the end of the behaviour when the specification's own final state says so - atEnd - and,
+\* independently of the specification, on the state in which the real system comes to rest after a fair completion
+\* without further faults - final)
+ConvergedIn(f) == f.L.mgr = "CONNECTED" /\ f.F.mgr = "CONNECTED" /\ f.L.sel = f.F.sel /\ f.L.sel > 0
+P_Converged(o) == /\ o.convergenceDue => ConvergedIn(o.atEnd)
+                  /\ o.restConvergenceDue => ConvergedIn(o.final)
 \* closing always completes ...
-P_StopCompletes(o) == /\ (o.specStopped.L => o.final.L.closed) /\ (o.specStopped.F => o.final.F.closed)
+P_StopCompletes(o) == /\ (o.specStopped.L => o.atEnd.L.closed) /\ (o.specStopped.F => o.atEnd.F.closed)
+                      /\ (o.restStopDue.L => o.final.L.closed) /\ (o.restStopDue.F => o.final.F.closed)
 \* ... and listeners, pending attempts and the active connection are shut down by then
 P_NothingLeft(o) == \A i \in 1..Len(o.snaps) :
     LET s == o.snaps[i] IN
